@@ -129,7 +129,8 @@ mut("c14_p2_first_allowed", ["C14"], "tad.py",
 REVERTS = [("edf2190", "revert_F3_reverse_dfs", ["C07", "C01"]), ("f849c62", "revert_F1_prune_paths", ["C02", "C03", "C06", "C10", "C13"]),
            ("ce29c7c", "revert_F6_count_transitions", ["C09", "C12"]), ("b382449", "revert_F4_width1", ["C08"]),
            ("a068c84", "revert_F5_prob_to_str", ["C17"]), ("b802ce9", "revert_F7_reward_clamp", ["C15"]),
-           ("bc2917a", "revert_F8_surviving_mass", ["C02", "C06"]), ("734775f", "revert_F9_reward_overflow", ["C15"])]
+           ("bc2917a", "revert_F8_surviving_mass", ["C02", "C06"]), ("734775f", "revert_F9_reward_overflow", ["C15"]),
+           ("92fdb0a", "revert_F10_stale_num_states", ["C09"]), ("367f1f8", "revert_F11_batch_prune_key", ["C10", "C12"])]
 
 
 def head(file):
